@@ -876,6 +876,71 @@ def param_instance(name):
     raise KeyError(name)
 
 
+def _ew_geom(net, op, code, const_first):
+    """binary elementwise operator with a constant second operand of broadcast shape `code`:
+       f full, c [1,1,1,C], w [1,1,W,1], h [1,H,1,1], hw [1,H,W,1], o [1,1,1,1], s scalar []; const_first swaps the operands"""
+    x = net.cur
+    t = net.T(x)
+    if not _hw4(net) or t["dtype"] not in ("int8", "uint8", "int16"):
+        return False
+    n, h, w, c = t["shape"]
+    shp = {"f": [n, h, w, c], "c": [1, 1, 1, c], "w": [1, 1, w, 1], "h": [1, h, 1, 1], "hw": [1, h, w, 1], "o": [1, 1, 1, 1], "s": []}[code]
+    dt = t["dtype"]
+    sc, z = net.qparams(dt)
+    o = net.const(shp, dt, "data", scale=[sc], zp=z)
+    y = net.act(t["shape"], dt)
+    optname = {"ADD": "AddOptions", "SUB": "SubOptions", "MUL": "MulOptions", "MINIMUM": "MaximumMinimumOptions", "MAXIMUM": "MaximumMinimumOptions"}[op]
+    opts = (optname, dict(FusedActivationFunction=0)) if op in ("ADD", "SUB", "MUL") else (optname, {})
+    if op in ("MINIMUM", "MAXIMUM"):
+        net.T(y)["quant"] = dict(scale=[net.scale(x)], zp=[net.zp(x)])
+        net.T(o)["quant"] = dict(scale=[net.scale(x)], zp=[net.zp(x)])
+    net.op(op, [o, x] if const_first else [x, o], [y], opts)
+    return True
+
+
+def _tconv_geom(net, k, s, pad):
+    x = net.cur
+    t = net.T(x)
+    if not _hw4(net) or t["shape"][1] > 32:
+        return False
+    n, h, w, c = t["shape"]
+    cout = 8
+    if pad == PAD_SAME:
+        oh, ow = h * s, w * s
+    else:
+        oh, ow = (h - 1) * s + k, (w - 1) * s + k
+    dt = t["dtype"]
+    wdt = _wdtype(dt)
+    wi = net.const([cout, k, k, c], wdt, "weights", scale=[0.004], zp=0 if wdt == "int8" else 128)
+    osh = net.const([4], "int32", "data", values=[n, oh, ow, cout])
+    bi = net.const([cout], "int32" if dt != "int16" else "int64", "bias", scale=[net.scale(x) * 0.004], zp=0)
+    y = net.act([n, oh, ow, cout], dt)
+    net.op("TRANSPOSE_CONV", [osh, wi, x, bi], [y], ("TransposeConvOptions", dict(Padding=pad, StrideW=s, StrideH=s)), version=3)
+    return True
+
+
+_param_base = param_instance
+
+
+def param_instance(name):  # noqa: F811
+    """further families:  padg.t<t>b<b>l<l>r<r>   ewg.<ADD|SUB|MUL|MINIMUM|MAXIMUM>.<f|c|w|h|hw|o|s>.<x|k> (k = constant first)
+       meang.a<axes digits>.<k|d> (keep / drop dims)   tconvg.k<k>.s<s>.<S|V>"""
+    parts = name.split(".")
+    kind = parts[0]
+    if kind == "padg":
+        import re
+        t_, b_, l_, r_ = map(int, re.match(r"t(\d+)b(\d+)l(\d+)r(\d+)$", parts[1]).groups())
+        return lambda n: _pad(n, [[0, 0], [t_, b_], [l_, r_], [0, 0]])
+    if kind == "ewg":
+        return lambda n: _ew_geom(n, parts[1], parts[2], parts[3] == "k")
+    if kind == "meang":
+        axes = [int(ch) for ch in parts[1][1:]]
+        return lambda n: _mean_ax(n, axes, keep=parts[2] == "k")
+    if kind == "tconvg":
+        return lambda n: _tconv_geom(n, int(parts[1][1:]), int(parts[2][1:]), PAD_SAME if parts[3] == "S" else PAD_VALID)
+    return _param_base(name)
+
+
 def build(history, seed=0):
     """history = dict(start=(shape, dtype), steps=[instance names]).  Returns model dict or None if a step does not apply."""
     net = Net(seed)
